@@ -227,8 +227,8 @@ fn to_bits(ids: &[u32], n: usize, dc: &DocCtx) -> Option<Vec<bool>> {
 
 /// `small_full`: only the formulas with at most one connective (and the negation extras), on all 8^3 valuations;
 /// otherwise all formulas up to k_max on the tier's valuation universe
-fn boolean_part(run: &Run, k_max: usize, small_full: bool) -> Acc {
-    let cells = valuations(run.thorough() || small_full);
+fn boolean_part(run: &Run, k_max: usize, small_full: bool, full_vals: bool) -> Acc {
+    let cells = valuations(full_vals);
     let atom_sets: Vec<[String; 3]> = vec![
         ["@.p".into(), "@.q".into(), "@.r".into()],
         ["@.p==1".into(), "@.q!=0".into(), "@.r==null".into()],
@@ -430,6 +430,14 @@ fn scoping_part(run: &Run, thorough: bool) -> Acc {
         "$.x[?!$.zz]",
         "$.x[?$.x[0]]",
         "$.x[?$.x[?@.k]]",
+        "$.x[?$[?@[0]]]",
+        "$.x[?count($[?@[0]])==1]",
+        "$.x[?$..[?@.p==$.u]]",
+        "$.x[?@.k..[?@.p]]",
+        "$.x[?@..k[?@.p]]",
+        "$.x[?@..[?@.p==1]]",
+        "$.x[?count(@..[?@.p])>1]",
+        "$.x[?@.k.*..[?@==1]]",
         "$.x[?$.x[?@.m==$.u]]",
         "$.x[?$]",
         "$.x[?@]",
@@ -469,14 +477,15 @@ fn scoping_part(run: &Run, thorough: bool) -> Acc {
 pub fn run(tier: &str) -> i32 {
     let run = Run::new("C05", tier);
     let k = if run.thorough() { 3 } else { 2 };
-    let a = boolean_part(&run, k, false);
-    // quick restricts the big formula set to 5 values per member; the small formulas always see all 8
-    let a2 = if run.thorough() { Acc::new() } else { boolean_part(&run, k, true) };
+    // the largest formula set runs on 5 values per member (absent, null, "", [], 1); formulas one size smaller
+    // (quick: up to one connective, thorough: up to two) see all 8 values
+    let a = boolean_part(&run, k, false, false);
+    let a2 = if run.thorough() { boolean_part(&run, 2, false, true) } else { boolean_part(&run, k, true, true) };
     let b = scoping_part(&run, run.thorough());
     let acc = a.merge(a2).merge(b);
     run.finish(
         acc,
-        "part 1: one cell = (formula, rendering, child valuation): every formula over three atoms with up to k binary connectives and every placement of `!`, rendered with minimal parentheses, fully parenthesised and with blanks, decided for all valuations of (p,q,r) (5^3 quick, 8^3 thorough) by one packed query, for 4 atom assignments x 2 container kinds; oracles: reference model, and Boolean algebra over the implementation's own results for the atoms; part 2: one cell = (scoping query, root value, item); non-trivial = kept children",
+        "part 1: one cell = (formula, rendering, child valuation): every formula over three atoms with up to k binary connectives and every placement of `!`, rendered with minimal parentheses, fully parenthesised and with blanks, decided for all valuations of (p,q,r) (5^3 for the largest formulas, 8^3 for the smaller ones) by one packed query, for 4 atom assignments x 2 container kinds; oracles: reference model, and Boolean algebra over the implementation's own results for the atoms; part 2: one cell = (scoping query, root value, item); non-trivial = kept children",
         &["atoms' own results are taken from the implementation (model-independent compositionality check); they are checked against the model as formulas of size 0"],
         true,
         json!({"max_connectives": k}),
